@@ -4,6 +4,7 @@
 mod arena;
 mod explore;
 mod interpose;
+mod layouts;
 mod report;
 mod sched;
 mod props;
